@@ -1083,10 +1083,15 @@ func c04NoEarlyStop(p *core.Program, r *core.Report) {
 // module fills with such a local. Asking the stream the decoder was handed lets a message cut off
 // before an optional tail pass for the older format.
 func c04OwnExtent(p *core.Program, r *core.Report) {
+	ownExtentRule(p, r, "C04.own-extent", "lang/", "what is left there belongs to the next record, and a message cut off before this point decodes as the older, shorter format")
+}
+
+// ownExtentRule is the rule for the functions under the given package prefix, reported under `rule`.
+func ownExtentRule(p *core.Program, r *core.Report, rule, scope, consequence string) {
 	x := wire.NewExtractor(p)
 	inScope := func(fi *core.FuncInfo) bool {
 		rel := core.RelPkg(fi.Pkg.PkgPath)
-		return fi.Decl.Body != nil && strings.HasPrefix(rel, "lang/")
+		return fi.Decl.Body != nil && strings.HasPrefix(rel, scope)
 	}
 	// localNested: is the stream expression a local built over bytes in this function?
 	localNested := func(fi *core.FuncInfo, e ast.Expr) bool {
@@ -1186,11 +1191,11 @@ func c04OwnExtent(p *core.Program, r *core.Report) {
 					}
 				}
 			}
-			probs = append(probs, fmt.Sprintf("%s.Available() at %s is asked of the stream the decoder was handed: what is left there belongs to the next record, and a message cut off before this point decodes as the older, shorter format", types.ExprString(sel.X), p.Pos(call.Pos())))
+			probs = append(probs, fmt.Sprintf("%s.Available() at %s is asked of the stream the decoder was handed: %s", types.ExprString(sel.X), p.Pos(call.Pos()), consequence))
 			return true
 		})
 		if asks > 0 {
-			fileProbs(r, "C04.own-extent", core.FuncName(fi.Obj), p.Pos(fi.Decl.Pos()), probs, "Available() is asked only of a stream built over a length-delimited blob")
+			fileProbs(r, rule, core.FuncName(fi.Obj), p.Pos(fi.Decl.Pos()), probs, "Available() is asked only of a stream built over a length-delimited blob")
 		}
 	}
 }
